@@ -161,10 +161,17 @@ func PubKeyFromFingerprint(fingerprint string) ([]byte, uint64, error) {
 		return nil, 0, errors.New("unknown key encoding")
 	}
 
+	for i := 0; i < len(fingerprint); i++ {
+		if fingerprint[i] >= 0x80 { //nolint:gomnd
+			// base58.Decode indexes its alphabet table with the runes of its input.
+			return nil, 0, errors.New("unknown key encoding")
+		}
+	}
+
 	mc := base58.Decode(fingerprint[1:]) // skip leading "z"
 
 	code, br := binary.Uvarint(mc)
-	if br == 0 {
+	if br <= 0 { // 0: buffer too small, negative: the value overflows 64 bits
 		return nil, 0, errors.New("unknown key encoding")
 	}
 
@@ -174,7 +181,7 @@ func PubKeyFromFingerprint(fingerprint string) ([]byte, uint64, error) {
 
 	if code == BLS12381g1g2PubKeyMultiCodec {
 		// for BBS+ G1G2 did:key type, return the G2 public key only (discard G1 key for now).
-		if len(mc[br+g1CompressedSize:]) != bls12381G2PublicKeyLen {
+		if len(mc) != br+g1CompressedSize+bls12381G2PublicKeyLen {
 			return nil, 0, errors.New("invalid bbs+ public key")
 		}
 
